@@ -383,7 +383,8 @@ def enum_exprs(depth):
     return res
 
 
-LETTERS = ['a', 'b', 'c', 'x', 'A', 'B', 'é', 'É', 'ب', '中', '_', '1', ' ', '-', '.', '*']
+# \u0441 \u0442 \u0141: code points whose LOW BYTE is an ASCII capital (0x41 0x42 0x41): case folding must look at the whole code point
+LETTERS = ['a', 'b', 'c', 'x', 'A', 'B', 'é', 'É', 'ب', '中', '_', '1', ' ', '-', '.', '*', '\u0441', '\u0442', '\u0141']
 
 
 def rand_ast(R, depth=3, alphabet=None):
